@@ -867,11 +867,11 @@ Import FO.
 Module P5 := ASV.C05.Proofs.
 
 Definition enumerator (en : enum) : Prop := forall k s, Permutation (en k s) (iter s).
-(* an enumeration that cannot be told from ascending id after the two PLAIN location sorts of the formation
-   (sites 7, 9: `sorted(a set)` without the product pre-sort) *)
+(* an enumeration that cannot be told from ascending id after the PLAIN location sort of the formation
+   (site 7: `sorted(a set)` without the product pre-sort; the second one, site 9, is gone since the repair of C05's
+   finding neighbouring_singles_not_linked) *)
 Definition tie_neutral (P : list proto) (en : enum) : Prop :=
-  (forall s, incl s P -> sort_by lt_pp (en 7 s) = sort_by lt_pp (iter s)) /\
-  (forall s, incl s P -> sort_by lt_pp (en 9 s) = sort_by lt_pp (iter s)).
+  forall s, incl s P -> sort_by lt_pp (en 7 s) = sort_by lt_pp (iter s).
 (* proper single-part location; proper2: ... and a proper single-part core that does not start before the location *)
 Definition proper (p : proto) : Prop := exists q, ploc p = [q] /\ ps q < pe q.
 Definition proper2 (p : proto) : Prop :=
@@ -1321,7 +1321,7 @@ Proof.
     cbn [bind] in *; [|reflexivity].
   destruct (HA _ _ eq_refl HC HK) as [HA1 _].
   rewrite (merge_sets_en _ HA1).
-  f_equal. f_equal. apply (proj1 Hneutral).
+  f_equal. f_equal. apply Hneutral.
   intros x Hx. apply HC. apply P5.In_diff in Hx. exact Hx.
 Qed.
 
@@ -1343,7 +1343,7 @@ Proof.
   rewrite Hcon in Hh. inversion Hh as [Hcl]. rewrite Hcl. reflexivity.
 Qed.
 
-(* site 8 (never reached on linear records / by hypothesis), site 9 (by hypothesis), site 4 *)
+(* site 8 (never reached on linear records / by hypothesis), site 4 *)
 Lemma find_neighbouring_en : forall singles cands, incl singles P -> (forall c, In c cands -> P5.good P w c) ->
   find_neighbouring_o en singles cands = find_neighbouring singles cands.
 Proof.
@@ -1353,7 +1353,6 @@ Proof.
   unfold find_neighbouring_o. unfold find_neighbouring in *. cbv zeta in *.
   match goal with |- context [diff singles ?m] => set (un := diff singles m) in * end.
   assert (HU : incl un P) by (intros x Hx; apply HSi; apply P5.In_diff in Hx; exact Hx).
-  rewrite (proj2 Hneutral un HU).
   destruct Hlin as [[Hw Hpr2]|[_ H8]].
   - assert (Hpr : Forall proper P) by (apply (Forall_impl _ (P := proper2)); [intros a Ha; exact (proj1 Ha)|exact Hpr2]).
     assert (Hb : forall c, In c cands -> bridges (cloc c) = false).
@@ -1372,9 +1371,9 @@ Qed.
 Lemma formation_body_en : formation_body_o en P w = formation_body P w.
 Proof.
   unfold formation_body_o, formation_body. cbv zeta.
-  assert (HP : incl (sort_by lt_pp P) P) by (intros x Hx; apply P5.sort_by_in in Hx; exact Hx).
+  assert (HP : incl (ordered_list P) P) by (intros x Hx; exact (proj1 (P5.In_ordered_list _ _) Hx)).
   rewrite (find_hybrids_en _ HP).
-  destruct (find_hybrids (sort_by lt_pp P) w) as [[hg un1]|k] eqn:E1; cbn [bind]; [|reflexivity].
+  destruct (find_hybrids (ordered_list P) w) as [[hg un1]|k] eqn:E1; cbn [bind]; [|reflexivity].
   destruct (P5.find_hybrids_allin _ _ _ _ E1) as [A1 B1].
   assert (A1' : P5.allin P hg) by (intros g x Hg Hx; exact (HP x (A1 g x Hg Hx))).
   assert (B1' : incl un1 P) by (intros x Hx; exact (HP x (B1 x Hx))).
@@ -1452,8 +1451,8 @@ Proof.
   set (P := p0 :: ps0).
   assert (E : formation_body_o en_asc P w = formation_body P w); [|rewrite E; reflexivity].
   unfold formation_body_o, formation_body. cbv zeta.
-  change (find_hybrids_o en_asc (sort_by lt_pp P) w) with (find_hybrids (sort_by lt_pp P) w).
-  destruct (find_hybrids (sort_by lt_pp P) w) as [[hg un1]|k]; cbn [bind]; [|reflexivity].
+  change (find_hybrids_o en_asc (ordered_list P) w) with (find_hybrids (ordered_list P) w).
+  destruct (find_hybrids (ordered_list P) w) as [[hg un1]|k]; cbn [bind]; [|reflexivity].
   rewrite build_candidates_o_asc.
   destruct (build_candidates w K_HYBRID hg [] []) as [[[c1 e1] s1]|k]; cbn [bind]; [|reflexivity].
   change (find_interleaved_o en_asc un1 c1 w) with (find_interleaved un1 c1 w).
@@ -1507,7 +1506,7 @@ Proof.
     rewrite (sort_by_ext_in lt_pp lexpp (iter s)) by (intros a b Ia Ib; apply lt_pp_simple; apply HS; apply Hin2; assumption).
     apply (sort_by_perm_unique lexpp lexpp_irrefl lexpp_trans); [apply Hen|].
     intros a b Ia Ib H1 H2. apply Hk; [apply Hin; exact Ia|apply Hin; exact Ib|]. apply lex2_total; assumption. }
-  split; apply Hlt.
+  intros s Hs. apply Hlt. exact Hs.
 Qed.
 
 Lemma formation_perm_linear_proof : forall P en en',
@@ -1539,9 +1538,9 @@ Proof.
   apply Permutation_sym. apply Permutation_rev.
 Qed.
 Lemma en_mixed_neutral : forall P w, tie_neutral P en_mixed /\ linear_or_neutral P w en_mixed.
-Proof. intros P w. split; [split; intros s _; reflexivity|right; split; intros s _; reflexivity]. Qed.
+Proof. intros P w. split; [intros s _; reflexivity|right; split; intros s _; reflexivity]. Qed.
 Lemma en_asc_neutral : forall P w, tie_neutral P en_asc /\ linear_or_neutral P w en_asc.
-Proof. intros P w. split; [split; intros s _; reflexivity|right; split; intros s _; reflexivity]. Qed.
+Proof. intros P w. split; [intros s _; reflexivity|right; split; intros s _; reflexivity]. Qed.
 
 (* ================================================================== composition *)
 Lemma pipeline_partial_proof : forall neighbour table N c nb crossing RN w
